@@ -128,7 +128,8 @@ def validate_many(jobs: list, stats: core.Stats, *, shards: int = 16, timeout: i
     for (ji, part, _), r in zip(plan, results):
         module, what = jobs[ji][0], jobs[ji][2]
         if not r.ok:
-            raise core.MachineryError(f"{module}: TLC failed: " + "; ".join(r.errors[:3]) + "\n" + r.stdout[-2500:])
+            k = r.stdout.find("Error:")
+            raise core.MachineryError(f"{module}: TLC failed: " + "; ".join(r.errors[:3]) + "\n" + r.stdout[max(0, k):k + 2500] + "\n...\n" + r.stdout[-1200:])
         stats.add_tlc(r, f"{what} {module}")
         for m in _V.finditer(r.stdout):
             out[ji][int(m.group(1))] = m.group(2)
